@@ -183,6 +183,7 @@ ADDENDA5 = {
     "C01": ("; assumption NoSharedState of the one-session model tested by a -race stage `pair`: seeded pairs of TLC-generated behaviours replayed concurrently in one process, turns changing at every transport read",
             "; two sessions of one process do not interfere (a sample of pairs)", ""),
     "C03": ("", "; payloads of messages returned by ReadMessage / ExpectMessage are held and must survive later reads", ""),
+    "C04": ("; a bystander connection of the same process holding requests with the same ids", "; connections of one process do not share their transaction table (the bystander's outstanding requests are unchanged by every schedule)", ""),
     "C13": ("; control messages written through every entry point (WriteControl, WriteMessage, NextWriter+Write+Close, control-type prepared message)",
             "; in the multi-message writer sessions the pings and the close frame go through each entry point for control messages, crossed with role and compression: control frames on the wire are uncompressed and the peer reads every data message", ""),
     "C15": ("; Close frame sent by the data writer through the message API (WriteMessage / NextWriter / prepared), the writer continuing with every entry point incl. WritePreparedMessage after a failed call",
